@@ -65,6 +65,13 @@ bool checkSegmentation(NiShape* shape, const Spec& sp, const std::map<Key, int>&
 	if (now != expectTris) return V("triangles-not-a-permutation", fmt("stored triangles (%zu) are not a permutation of the expected ones (%zu)", now.size(), expectTris.size()));
 	NifSegmentationInfo inf2;
 	std::vector<int> tp2;
+	{
+		// callers re-use their output objects: what they held before the call is no part of the answer
+		NifSegmentInfo junk; junk.partID = 77; junk.subs.resize(2);
+		inf2.segs.assign(3, junk);
+		inf2.ssfFile = "left over from an earlier call";
+		tp2.assign(tris.size() + 3, 5);
+	}
 	if (!NifFile::GetShapeSegments(shape, inf2, tp2)) return V("get-failed", "GetShapeSegments returned false");
 	if (tp2.size() != tris.size()) return V("label-count", fmt("%zu labels for %zu triangles", tp2.size(), tris.size()));
 	// structure and renumbering
@@ -223,6 +230,39 @@ void segCase(const std::string& what, const char* ver, const Mesh& mesh, const S
 			if (!checkSegmentation(re.GetShapes()[0], sp, label2, tset2, what, "after-vertex-deletion+reload")) return;
 		}
 	}
+	{
+		// taking the segmentation away again: no segments, every triangle unassigned; read back into objects that still hold the
+		// previous answer, in memory and after save + reload
+		R_phase("remove-segmentation");
+		NifSegmentationInfo prevInf;
+		std::vector<int> prevLabels;
+		NifFile::GetShapeSegments(s, prevInf, prevLabels);
+		std::vector<Triangle> trisNow;
+		s->GetTriangles(trisNow);
+		NifSegmentationInfo none;
+		none.ssfFile = prevInf.ssfFile;
+		NifFile::SetShapeSegments(s, none, std::vector<int>(trisNow.size(), -1));
+		auto judgeRemoved = [&](NiShape* sh, const char* stage) {
+			R_eval();
+			NifSegmentationInfo got = prevInf;
+			std::vector<int> lab = prevLabels;
+			for (auto& l : lab) if (l < 0) l = 0;
+			if (!NifFile::GetShapeSegments(sh, got, lab)) { R_viol("segmentation", std::string(stage) + "/get-failed", what + ": GetShapeSegments fails after the segmentation was removed"); return false; }
+			std::vector<Triangle> t2;
+			sh->GetTriangles(t2);
+			if (!got.segs.empty()) { R_viol("segmentation", std::string(stage) + "/segments-reported", what + fmt(": %zu segments read back after the segmentation was removed", got.segs.size())); return false; }
+			if (lab.size() != t2.size()) { R_viol("segmentation", std::string(stage) + "/label-count", what + fmt(": %zu labels for %zu triangles after removal", lab.size(), t2.size())); return false; }
+			for (size_t i = 0; i < lab.size(); i++)
+				if (lab[i] != -1) { R_viol("segmentation", std::string(stage) + "/stale-label", what + fmt(": triangle %zu reads back label %d after the segmentation was removed (output objects held the previous answer)", i, lab[i])); return false; }
+			return true;
+		};
+		if (!judgeRemoved(s, "after-removal")) return;
+		NifFile cp(nif);
+		NifFile re;
+		if (loadNif(re, saveNif(cp, false)) != 0 || re.GetShapes().size() != 1) { R_viol("segmentation", "after-removal/reload", what + ": model does not reload after the segmentation was removed"); return; }
+		if (!judgeRemoved(re.GetShapes()[0], "after-removal+reload")) return;
+		R_stat("segmentations_removed_and_read_back");
+	}
 	R_cover(what);
 }
 
@@ -263,7 +303,8 @@ void partitionCase(size_t idx) {
 	auto verify = [&](NifFile& f, NiShape* sh, const char* stage) {
 		R_eval();
 		NiVector<BSDismemberSkinInstance::PartitionInfo> inf2;
-		std::vector<int> tp2;
+		std::vector<int> tp2(7, 3);   // output objects that still hold an earlier answer
+		{ BSDismemberSkinInstance::PartitionInfo j; j.partID = 999; inf2.push_back(j); inf2.push_back(j); }
 		if (!f.GetShapePartitions(sh, inf2, tp2)) { R_viol("partition-labels", std::string(stage) + "/get-failed", what + ": GetShapePartitions failed"); return false; }
 		std::vector<Triangle> t2;
 		sh->GetTriangles(t2);
@@ -492,6 +533,6 @@ MonReg reg({"C17", "exploration",
 			"sub-segments, permuted ids, label modes (all assigned, 25% unassigned, all in first, all in last, skewed), user slots below/above 30, extra data; half of them followed by a "
 			"random vertex deletion. Partition labels: OB/FO3/SK/SSE skinned shapes, 1..4 partitions, 25% unassigned; the skinned shapes of the real samples (incl. strip partitions) labelled without a query before or a rebuild after, then copied, saved+reloaded or cut by a vertex deletion. Oracle after set, after set(get()), after save+reload and after "
 			"vertex deletion(+reload): triangles are a permutation, read-back ids increase in segment order, every assigned label is preserved under the renumbering, every triangle "
-			"is labelled, label runs contiguous and ordered, stored table contiguous/nested/summing to the triangle count, user-slot/material/extra data kept. Non-trivial = case that passed all stages.",
+			"is labelled, label runs contiguous and ordered, stored table contiguous/nested/summing to the triangle count, user-slot/material/extra data kept; getters are handed output objects that still hold an earlier answer; finally the segmentation is removed (no segments, all -1) and must read back as such in memory and after reload. Non-trivial = case that passed all stages.",
 			[] { Plan p = plan(); return exhCases(p.exhN) + p.randomSeg + p.parts + realSamples().size() * 2; }, run, 6, 300.0, false, false, nullptr});
 } // namespace
